@@ -622,6 +622,26 @@ func init() {
 		}
 		return SliceV{out}
 	})
+	reg("slice.Mapi", 2, func(ev *Evaluator, a []Value) Value {
+		var out []Value
+		for i, x := range sl(a[1]) {
+			out = append(out, ev.Apply(a[0], int64(i), x))
+		}
+		return SliceV{out}
+	})
+	reg("slice.TryFind", 2, func(ev *Evaluator, a []Value) Value {
+		for _, x := range sl(a[1]) {
+			if ev.Apply(a[0], x).(bool) {
+				return TupleV{[]Value{x, true}}
+			}
+		}
+		return TupleV{[]Value{int64(0), false}} // the zero value of the element type; only int slices are generated
+	})
+	// constructors with a payload are also function values (x |> I, slice.Map I xs)
+	for _, cn := range []string{"I", "S", "Some", "P", "Q", "L"} {
+		cn := cn
+		reg(cn, 1, func(ev *Evaluator, a []Value) Value { return UnionV{Case: cn, Payload: a[0]} })
+	}
 	reg("slice.Iter", 2, func(ev *Evaluator, a []Value) Value {
 		for _, x := range sl(a[1]) {
 			ev.Apply(a[0], x)
